@@ -41,7 +41,9 @@ PLANS = {
                        "the printed rows must be exactly min(n, rows) rows of the reference result (multiplicities respected), in sort order and the first n of the sort order under ORDER BY"),
         "level_note": ("trusted: reference result (nested-loop join, batch grouping, distinct), decoding of the printed text for ints/NULL/identifiers; the code from sqlparser.Parse to sink.Run is RunE's own, "
                        "copied at build time by tools/mkoverlay into cmd.SimRunQuery; the schedule-free part of the statement (a single batch table) is explored too but is not what this technique adds"),
-        "parts": [{"check": "c05", "quick": 40000, "thorough": 2500000}],
+        "parts": [{"check": "c05", "quick": 40000, "thorough": 2500000},
+                  # the real binary (cobra, config, RunE as compiled, real csv/json files): scheduling is the OS's here - monitored, not scheduled
+                  {"check": "c05cli", "kind": "proc", "script": "c05cli.py", "quick": 640, "thorough": 40000}],
         "rule": ("each run draws a base query (single table, inner join, left/right/full outer join, GROUP BY with a counting trigger, DISTINCT, changelog table with retractions), a nesting "
                  "(top level, subquery, subquery + outer LIMIT, subquery LIMIT + outer ORDER BY, WITH, ORDER BY only), 0-2 sort keys with directions, n from {0,1,2,3,4,6,9,100}, one of the five output modes, "
                  "tables and the interleaving of the sources; non-trivial = at least 2 input messages; distinct = distinct (shape tuple, tables+schedule) pairs"),
